@@ -23,6 +23,7 @@ class E2:
         self.mir_time = 0.0
         self.exec_time = 0.0
         self.fns = None
+        self.crate_fns = {}
         self.paths = {}
         self.solver = None
         self.replay_bin = None
@@ -33,28 +34,36 @@ class E2:
         self.functions = []
 
     # ---- MIR --------------------------------------------------------------------------------
-    def dump_mir(self):
-        if self.fns is not None:
-            return
+    def mir_of(self, crate, features=None):
+        """parsed MIR of one workspace crate of the scratch copy (nightly -Zunpretty=mir), cached per run"""
+        if crate in self.crate_fns:
+            return self.crate_fns[crate]
         t0 = time.time()
         env = dict(os.environ)
         env["CARGO_NET_OFFLINE"] = "true"
         env.pop("RUSTUP_TOOLCHAIN", None)
-        out = os.path.join(self.ws.root, "auth.mir")
-        # make sure the crate is re-emitted
-        lib = os.path.join(self.ws.ws, "passkey-authenticator", "src", "lib.rs")
+        out = os.path.join(self.ws.root, "%s.mir" % crate)
+        lib = os.path.join(self.ws.ws, crate, "src", "lib.rs")
         os.utime(lib, None)
-        cmd = ["cargo", "+nightly", "rustc", "--offline", "-p", "passkey-authenticator", "--lib",
-               "--target-dir", os.path.join(self.ws.root, "mir-target"), "--",
-               "-Zunpretty=mir", "-C", "debug-assertions=off", "-C", "overflow-checks=on"]
-        with open(out, "w") as fo, open(os.path.join(self.log_dir, "mir-dump.log"), "w") as fe:
+        cmd = ["cargo", "+nightly", "rustc", "--offline", "-p", crate, "--lib"]
+        if features:
+            cmd += ["--features", ",".join(features)]
+        cmd += ["--target-dir", os.path.join(self.ws.root, "mir-target"), "--",
+                "-Zunpretty=mir", "-C", "debug-assertions=off", "-C", "overflow-checks=on"]
+        with open(out, "w") as fo, open(os.path.join(self.log_dir, "mir-dump-%s.log" % crate), "w") as fe:
             rc = subprocess.run(cmd, cwd=self.ws.ws, env=env, stdout=fo, stderr=fe, timeout=1200).returncode
         text = open(out).read()
         if rc != 0 or "fn " not in text:
-            raise C.Shape("MIR dump failed (rc=%s); see mir-dump.log" % rc)
-        self.fns = parse_mir(text)
-        self.mir_time = time.time() - t0
+            raise C.Shape("MIR dump of %s failed (rc=%s); see mir-dump-%s.log" % (crate, rc, crate))
+        self.crate_fns[crate] = parse_mir(text)
+        self.mir_time += time.time() - t0
         self.mir_cmd = " ".join(cmd)
+        return self.crate_fns[crate]
+
+    def dump_mir(self):
+        if self.fns is not None:
+            return
+        self.fns = self.mir_of("passkey-authenticator")
         srcs = {}
         for rel in ("passkey-types/src/ctap2/get_assertion.rs", "passkey-types/src/ctap2/make_credential.rs",
                     "passkey-types/src/passkey.rs"):
@@ -253,9 +262,10 @@ def engine(pid, spec, tier, ws, out, log_dir, known):
     t0 = time.time()
     findings = []
     try:
-        e2.dump_mir()
         want = {pid}
         todo = spec.get("e2", [])
+        if any(t in todo for t in ("get_assertion", "make_credential", "stores", "forwarding", "u2f")):
+            e2.dump_mir()
         npaths = 0
         if "get_assertion" in todo:
             ps = e2.run_paths("ga", "authenticator::get_assertion", "get_assertion::{closure#0}")
@@ -282,6 +292,28 @@ def engine(pid, spec, tier, ws, out, log_dir, known):
                 findings += f
                 npaths += n
                 e2.functions.append("<%s as CredentialStore>::find_credentials::{closure#0} and its closures" % ("Option<Passkey>" if kind == "option" else "MemoryStore"))
+        if "from_slice" in todo:
+            tf = e2.mir_of("passkey-types")
+            cands = [n for n in tf if "attestation_fmt::<impl" in n and n.endswith(">::from_slice")]
+            if len(cands) != 1:
+                raise C.Shape("cannot identify AuthenticatorData::from_slice in the MIR (%d candidates)" % len(cands))
+            ex = Executor(tf[cands[0]], follow_yields=False)
+            ps = ex.run()
+            e2.functions.append(cands[0])
+            npaths += len(ps)
+            f, q = C.check_from_slice(ps, e2.get_solver(), want)
+            findings += f
+        if "u2f" in todo:
+            allp = []
+            for m in ("register", "authenticate"):
+                cands = [n for n in e2.fns if n.startswith("u2f::<impl") and n.endswith("::%s::{closure#0}" % m)]
+                if len(cands) != 1:
+                    raise C.Shape("cannot identify U2fApi::%s in the MIR" % m)
+                ps = e2.feasible(Executor(e2.fns[cands[0]]).run())
+                e2.functions.append(cands[0])
+                npaths += len(ps)
+                allp.append(ps)
+            findings += C.check_u2f(allp[0], allp[1])
         if "forwarding" in todo:
             for method in ("get_info", "make_credential", "get_assertion"):
                 name = e2.find_fn("ctap2::<impl", "::%s::{closure#0}" % method)
